@@ -238,6 +238,28 @@ def labels(repo, chk):
     bad = [s_ for s_ in steps if not s_[2]]
     chk.expect(len(steps) == 3 and not bad, 'C20.4b', 'R15', fn.site(bad[0][0]) if bad else fn.site(), '; '.join(s[1] for s in steps), 'label = number of cut points the decision value exceeds (monotone step function)',
                f'labels must be sums of indicators (decision > cut point); found {[s[1] for s in bad] or len(steps)}', soft=True)
+    # the cut points are the cumulative requested shares as percentages, exactly: a floor division / rounding in what reaches np.percentile moves them
+    from .common import value_origins
+    rounded = None
+    for c in pcs:
+        if len(c.args) < 2:
+            continue
+        for g, e in value_origins(m, fn.node, c.args[1], limit=80):
+            if isinstance(e, ast.BinOp) and isinstance(e.op, ast.FloorDiv):
+                rounded = (e, 'floor division')
+            elif isinstance(e, ast.Call) and isinstance(e.func, ast.Name) and e.func.id in ('int', 'round') and e.args and not isinstance(e.args[0], ast.Constant):
+                rounded = (e, f'{e.func.id}()')
+            elif isinstance(e, ast.Call) and (m.dotted(e.func) or '') in ('numpy.floor', 'numpy.ceil', 'numpy.round', 'numpy.rint', 'math.floor', 'math.ceil'):
+                rounded = (e, m.dotted(e.func))
+            if rounded:
+                break
+        if rounded:
+            break
+    if rounded:
+        chk.bad('C20.4e', 'R15', m.relpath + f':{rounded[0].lineno} generate_labels', ast.unparse(rounded[0])[:80], f'the percentiles at which the decision values are cut are computed with {rounded[1]}: the cut points are no longer the '
+                'cumulative requested shares (e.g. 100 // 3 = 33 for three classes: 33 / 33 / 34 % instead of thirds), so the class proportions do not match the requested distribution')
+    elif pcs:
+        chk.ok('C20.4e', 'R15', fn.site(pcs[0]), f'{len(pcs)} percentile computations', 'nothing that reaches the percentile cut points is floored or rounded')
     # the equal-shares rule (p := 1 / n) is for MORE than two classes; two classes are cut at the requested share p
     nparam = next((q for q in fn.params if q == 'n'), None)
     pparam = next((q for q in fn.params if q == 'p'), None)
